@@ -7,8 +7,8 @@
    The main statement holds for every class and every input (no domain restriction since the
    empty-string alias was repaired in /repo 7108448). *)
 From Coq Require Import List String Ascii ZArith Bool.
-From Verif Require Import Regex PyK PyK_strat PyK_alias FieldDecl FieldDeclProofs KeyModel KeyImpl KeyProofs KeyDecl KeyCfg KeyNested KeyRewrite KeyHook KeyDc KeyDcDecl KeyDeep KeyDeepHook.
-From VerifGen Require Import K4 K5.
+From Verif Require Import Regex PyK PyK_strat PyK_alias FieldDecl FieldDeclProofs KeyModel KeyImpl KeyProofs KeyDecl KeyCfg KeyNested KeyRewrite KeyHook KeyDc KeyDcDecl KeyDeep KeyDeepHook PyK_clsdiscr KeyDiscr.
+From VerifGen Require Import K4 K5 K43.
 Import ListNotations.
 Open Scope string_scope.
 Open Scope list_scope.
@@ -317,6 +317,72 @@ Example C09_nonvacuous_deep_hooks :
   = DInst [("x", Some (RList [RObj [("r", Some (RZ 1))]; RObj [("r", Some (RZ 2))]]))]
   /\ deeph_impl 10 [n; k] hs 1 [(KeyS "x", VL [VD [(KeyS "ar", VZ 1); (KeyS "junk", VZ 0)]])] = DInvalid "x"
   /\ deeph_ref 10 [n; k] [None; None] 1 [(KeyS "x", VL [VD [(KeyS "legacy", VZ 1)]])] = DInvalid "x".
+Proof. repeat split; vm_compute; reflexivity. Qed.
+
+(* ---- which class-level discriminator: CodeBuilder.get_discriminator translated (K43), run on the class objects
+   of a hierarchy (MRO nearest class first; every class with the Config its body defines, every Config with the
+   Config it derives from / BaseConfig / nothing and the `discriminator` line it writes) ---- *)
+
+(* get_discriminator(look_in_parents=True) = the discriminator of the first class along the MRO whose OWN Config has
+   one by Python's attribute lookup on that Config class; this is the object whose field the allowed keys get *)
+Theorem C09_get_discriminator : forall r,
+  get_discriminator (cls_obj_d r) base_config_d (KBool true) = Ok (enc_discr (nearest_discr r)).
+Proof. exact get_discriminator_parents. Qed.
+Print Assumptions C09_get_discriminator.
+
+(* get_discriminator() = that of the class's own Config: the test that turns from_dict into a dispatcher *)
+Theorem C09_own_discriminator : forall r,
+  get_discriminator (cls_obj_d r) base_config_d (KBool false) = Ok (enc_discr (own_discr r)).
+Proof. exact get_discriminator_own. Qed.
+Print Assumptions C09_own_discriminator.
+
+(* the generated from_dict of the class a hierarchy denotes -- dispatcher test, get_config, get_discriminator for
+   the allowed keys, __get_field_alias, the emitted lookups: all translated -- is KEYMODEL of that class with the
+   nearest class-level discriminator, for every hierarchy and every input (a dispatcher reads no field: C05) *)
+Theorem C09_keys_discr : forall r d,
+  impl_from_dhier r d
+  = Ok (match own_discr r with
+        | Some _ => Dispatcher
+        | None => Body (keymodel (class_of (rev (map fst r)) (nearest_discr r)) d)
+        end).
+Proof. exact impl_from_dhier_keymodel. Qed.
+Print Assumptions C09_keys_discr.
+
+(* "a class-level discriminator field is accepted": the tag key of the nearest discriminator is in the accepted
+   set whatever fields, aliases and options the class has *)
+Theorem C09_discr_accepted : forall r s,
+  nearest_discr r = Some (Some s) -> s <> "" ->
+  In (KeyS s) (accepted (class_of (rev (map fst r)) (nearest_discr r))).
+Proof. exact nearest_discr_accepted. Qed.
+Print Assumptions C09_discr_accepted.
+
+(* a Config deriving from a Config that has a discriminator hands it on: its class is a dispatcher as well;
+   a class without Config of its own never is one *)
+Theorem C09_discr_config_inheritance : forall l cd w r',
+  (l_cfg l = Some cd -> cd_inherit cd = true -> own_discr ((l, DAbsent) :: r') = cfg_discr r')
+  /\ (l_cfg l = None -> own_discr ((l, w) :: r') = None).
+Proof.
+  intros l cd w r'. split; [exact (inherited_config_dispatches l cd r') | exact (no_own_config_no_dispatch l w r')].
+Qed.
+Print Assumptions C09_discr_config_inheritance.
+
+(* A: Config(discriminator on "t").  B(A): plain Config writing discriminator on "u".  K(B): own Config
+   (forbid_extra_keys, aliases x -> ax), no discriminator line.  K.from_dict accepts "u" (B is nearer than A), not "t";
+   with B's line removed it accepts "t"; a K whose Config derives from B's is a dispatcher. *)
+Example C09_nonvacuous_discr :
+  let cfgA := Some (mkCD false false None None None) in
+  let cfgB := Some (mkCD false true None None None) in
+  let cfgK := Some (mkCD false false (Some [("x", "ax")]) None (Some true)) in
+  let a := (mkL [] cfgA, DObj (Some "t")) in
+  let b w := (mkL [] cfgB, w) in
+  let k := (mkL [(mkF "x" None None false, true)] cfgK, DAbsent) in
+  let d := [(KeyS "ax", 1%Z); (KeyS "t", 2%Z); (KeyS "u", 3%Z)] in
+  impl_from_dhier [k; b (DObj (Some "u")); a] d = Ok (Body (OExtra [KeyS "t"]))
+  /\ impl_from_dhier [k; b DAbsent; a] d = Ok (Body (OExtra [KeyS "u"]))
+  /\ impl_from_dhier [k; b DNone; a] [(KeyS "ax", 1%Z); (KeyS "t", 2%Z)] = Ok (Body (OInst [("x", Some (KeyS "ax", 1%Z))]))
+  /\ impl_from_dhier [(mkL [] (Some (mkCD true false None None None)), DAbsent); b (DObj None); a] d = Ok Dispatcher
+  /\ get_discriminator (cls_obj_d [k; b (DObj (Some "u")); a]) base_config_d (KBool true)
+     = Ok (KNs [("__class__", KStr "Discriminator"); ("field", KStr "u")]).
 Proof. repeat split; vm_compute; reflexivity. Qed.
 
 (* ---- arbitrary MROs (diamonds): a model of CPython's dataclass walk and of get_type_hints ---- *)
